@@ -260,7 +260,9 @@ class CircuitTemplate(AbstractBaseTemplate):
         self.__doc__ = description
         self.circuits = circuits
         self.nodes = nodes
-        self.edges = edges
+        # rebuild the (source, target, idx) -> edge map for the new edge list
+        self._edge_map = {}
+        self.edges = self._load_edge_templates(edges)
 
     def update_var(self, node_vars: dict = None, edge_vars: list = None):
         """Update the value of node or edge variables.
